@@ -410,6 +410,8 @@ def generate(prop: str, run_seed: int, tier: str = "quick") -> dict:
         cfg["sib_perm"] = dict(zip(ls, sh))
     ops = []
     n = rng.randint(3, 9) if tier == "quick" else rng.randint(4, 14)
+    if rng.random() < 0.04:
+        n = rng.randint(20, 32)  # swarm: now and then a long history
     for _ in range(n):
         r = rng.random()
         if r < 0.62:
